@@ -9,6 +9,13 @@ R-MODEATOM  for every counter read by has_incompatible_changes() (net counters a
             no store into that counter in corpus_diff::priv::apply_filters_and_compute_diff_stats is
             control-dependent on diff::is_filtered_out() / is_filtered_out_wrt_non_inherited_categories().
             Suppression-based halves (sizes of the suppressed_* sets) are mode independent.
+R-SIMILARLEAF leaf mode only knows the diff nodes that leaf_diff_node_marker_visitor keeps; it drops the nodes of
+            some kinds (pointer, reference, array ...: "a change of those makes no sense on its own"), so a difference
+            that is proper to such a kind must surface as a *local* change of whatever refers to it.  Local-ness is
+            decided by ir::types_have_similar_structure(first, second, indirect_type): in its arm for a kind whose
+            diff nodes are dropped, every comparison of the kind's own attributes must be evaluated also when
+            indirect_type is true (behind a pointer); otherwise the difference is a local change of nothing and the
+            leaf report misses what the default report shows.
 """
 from engine.cfg import strip_casts
 from engine.facts import walk, call_args, member_call_object, expr_str
@@ -23,7 +30,8 @@ FILTERS = ("is_filtered_out", "is_filtered_out_wrt_non_inherited_categories", "t
 def run(ctx):
     ctx.clause = ("no counter that decides the INCOMPATIBLE bit (corpus_diff::has_incompatible_changes) is computed under "
                   "the report-mode dependent filter diff::is_filtered_out()")
-    ctx.rules = ["R-MODEATOM"]
+    ctx.rules = ["R-MODEATOM", "R-SIMILARLEAF"]
+    check_similarleaf(ctx)
     P = ctx.program(UNITS)
     inc = P.fn1("abigail::comparison::corpus_diff::has_incompatible_changes")
     ctx.analysed(inc)
@@ -81,3 +89,91 @@ def run(ctx):
     ctx.assume("the CHANGE bit comes from two different predicates (default_reporter / leaf_reporter::diff_has_net_changes) "
                "over different counters; that they agree is runtime behaviour of the leaf-node marking and is not decided; "
                "the impacted-interfaces clause is not decided either")
+
+
+
+def check_similarleaf(ctx):
+    from rules.world import World
+    P = ctx.program(["src/abg-comparison.cc", "src/abg-ir.cc"])
+    vs = [f for f in P.all_funcs() if not f.dep and f.n == "visit_begin" and "leaf_diff_node_marker_visitor" in f.q]
+    if len(vs) != 1:
+        raise AnalysisBroken("anchor vanished: leaf_diff_node_marker_visitor::visit_begin")
+    v = vs[0]
+    ctx.analysed(v)
+    dropped = set()
+    for n in v.nodes():
+        if n["k"] == "UnaryOperator" and n.get("op") == "!":
+            c = strip_casts(n["c"][0])
+            while c is not None and c["k"] in ("ImplicitCastExpr", "CXXMemberCallExpr") and c["k"] != "CallExpr":
+                # shared_ptr / pointer to bool conversions around the call
+                inner = [x for x in walk(c) if x["k"] == "CallExpr"]
+                c = inner[0] if inner else None
+            if c is not None and c["k"] == "CallExpr":
+                nm = (v.decl(c) or {}).get("n", "")
+                if nm.startswith("is_") and nm.endswith("_diff"):
+                    dropped.add(nm[3:-5])
+    if len(dropped) < 3:
+        raise AnalysisBroken("anchor vanished: the leaf marker no longer excludes diff kinds with !is_X_diff(d)")
+    fs = [f for f in P.fn("abigail::ir::types_have_similar_structure") if not f.dep and f.cfg() is not None and
+          any(x["k"] == "IfStmt" and x.get("var") for x in f.nodes())]
+    if len(fs) != 1:
+        raise AnalysisBroken("anchor vanished: ir::types_have_similar_structure(const type_base*, const type_base*, bool)")
+    f = fs[0]
+    ctx.analysed(f)
+    ip = [p for p in f.r["params"] if (f.unit.decl(p) or {}).get("n") == "indirect_type"]
+    if not ip:
+        raise AnalysisBroken("anchor vanished: parameter indirect_type of types_have_similar_structure")
+    ip = ip[0]
+
+    def world(val):
+        def atom(e):
+            if e["k"] == "DeclRefExpr" and e.get("d") == ip:
+                return [val]
+            return None
+        W = World(f, atom)
+        seen, _ = W.blocks()
+        cfg = f.cfg()
+        return {e["i"] for b in seen for e in cfg.blocks[b].elems}
+    reach_t = world(True)
+    n_arm = n_cmp = 0
+    for arm in f.nodes():
+        if arm["k"] != "IfStmt" or not arm.get("var"):
+            continue
+        var = arm["var"]
+        calls = [x for x in walk(var) if x["k"] == "CallExpr" and (f.decl(x) or {}).get("n", "").startswith("is_")]
+        if not calls:
+            continue
+        pred = (f.decl(calls[0]) or {}).get("n")            # is_pointer_type, is_array_type ...
+        stem = pred[3:]
+        for suf in ("_type", "_decl"):
+            if stem.endswith(suf):
+                stem = stem[:-len(suf)]
+        if stem not in dropped:
+            continue
+        n_arm += 1
+        v1 = var.get("d")
+        then = arm["c"][1] if len(arm["c"]) > 1 else None
+        if then is None:
+            continue
+        v2 = {x.get("d") for x in walk(then) if x["k"] == "VarDecl" and x.get("c") and x["c"][0] is not None and
+              any(y["k"] == "CallExpr" and (f.decl(y) or {}).get("n") == pred for y in walk(x["c"][0]))}
+        for c in walk(then):
+            if c["k"] in ("BinaryOperator", "CXXOperatorCallExpr") and c.get("op") in ("==", "!="):
+                a = call_args(c) if c["k"] == "CXXOperatorCallExpr" else c["c"]
+                sides = []
+                for s_ in a:
+                    s0 = strip_casts(s_)
+                    if s0 is not None and s0["k"] == "CXXMemberCallExpr":
+                        o = [y for y in walk(member_call_object(s0)) if y["k"] == "DeclRefExpr"]
+                        sides.append(((f.decl(s0) or {}).get("n"), o[-1].get("d") if o else None))
+                if len(sides) == 2 and sides[0][0] == sides[1][0] and {sides[0][1], sides[1][1]} == ({v1} | v2) and len(v2) == 1:
+                    n_cmp += 1
+                    ok = c["i"] in reach_t
+                    ctx.ob("R-SIMILARLEAF", "types_have_similar_structure: %s of two %s types is compared behind a pointer too" % (
+                        sides[0][0], stem), ok, f.loc(c), "`%s` is evaluated when indirect_type is true" % expr_str(f, c)[:70] if ok else
+                        "`%s` is skipped when indirect_type is true, but %s_diff nodes are not leaf candidates "
+                        "(leaf_diff_node_marker_visitor): a difference in %s behind a pointer is then nobody's local change and "
+                        "--leaf-changes-only reports nothing where the default mode reports a change" % (
+                            expr_str(f, c)[:70], stem, sides[0][0]))
+    ctx.floor("R-SIMILARLEAF", "arms of kinds whose diff nodes are not leaf candidates", n_arm, 3)
+    ctx.floor("R-SIMILARLEAF", "own-attribute comparisons in those arms", n_cmp, 3)
